@@ -191,7 +191,7 @@ func main() {
 	}
 	nGen, nAssume := 330, 30
 	if c.Thorough() {
-		nGen, nAssume = 5000, 300
+		nGen, nAssume = 3000, 300
 	}
 	type job struct {
 		seed   uint64
@@ -265,5 +265,9 @@ func main() {
 		"state.Cluster.{UpdatePod,DeletePod} via informer.PodController.Reconcile = C11.Model.deliver_pod",
 		"state.Cluster.{MarkForDeletion,UnmarkForDeletion} = C11.Model.set_mark",
 		"StateNode.{PodRequests,DaemonSetRequests,DisruptionCost,MarkedForDeletion,Labels,Capacity} = C11.Check.acc_of / C11.Model.vnode_of"}
-	c.Finish("From KV Require Import C11.Model C11.Check.", "case", "check_all", 60)
+	shard := 60
+	if c.Thorough() {
+		shard = 140
+	}
+	c.Finish("From KV Require Import C11.Model C11.Check.", "case", "check_all", shard)
 }
